@@ -22,7 +22,7 @@ ASSUMPTIONS = [
     "coverage and exclusivity by R3 (vf/ref/acl.py); cases where the ideal coverage and the implementation's documented winner rule disagree (known findings of C06) are skipped and counted",
     "programs never yield rows in negated form",
 ]
-FLOORS = {"quick": {"runs": 1200, "outcome_ok": 300, "outcome_generator_error": 150, "outcome_not_exclusive": 60, "block_contexts_entered": 2000, "annotated_runs": 80, "annotated_rows": 200, "cases_with_a_silent_generator": 300, "cases_with_three_differently_written_rules": 300, "comment_rows_yielded_inside_blocks": 200, "acl_comment_lines": 3000, "rules_mentioning_interface_not_at_start": 4000},
+FLOORS = {"quick": {"runs": 1200, "outcome_ok": 300, "outcome_generator_error": 150, "outcome_not_exclusive": 60, "block_contexts_entered": 2000, "annotated_runs": 80, "annotated_rows": 200, "cases_with_a_silent_generator": 300, "cases_with_three_differently_written_rules": 300, "comment_rows_yielded_inside_blocks": 200, "acl_comment_lines": 3000, "rules_mentioning_interface_not_at_start": 4000, "multi_line_yields_all_inside_the_first_line": 500, "cases_with_device_rows_claimed_by_several_generators": 800},
           "thorough": {"runs": 50000, "outcome_ok": 12000, "outcome_generator_error": 6000, "outcome_not_exclusive": 2500, "block_contexts_entered": 80000, "annotated_runs": 3000, "annotated_rows": 8000, "cases_with_a_silent_generator": 12000, "cases_with_three_differently_written_rules": 12000, "comment_rows_yielded_inside_blocks": 4000, "acl_comment_lines": 60000, "rules_mentioning_interface_not_at_start": 80000}}
 VENDORS = ["huawei", "cisco", "arista", "nexus"]
 HEADS = ["a", "b", "c", "interface", "router", "x", "ntp source-interface", "c passive-interface"]  # the word `interface` only makes a rule not deletable by default at its start
@@ -52,7 +52,12 @@ def gen_program(rng, depth=0, budget=None):
             out.append(["t", [h, [k, rng.choice([1, 20, "z"])]]])
         elif r < 0.58:
             a, b, c = gen_row(rng), gen_row(rng), gen_row(rng)
-            out.append(["m", [[0, a], [1, b], [1, c + " m"], [0, b + " top"]]])
+            shape = rng.choice([[[0, a], [1, b], [1, c + " m"], [0, b + " top"]],
+                                [[0, a], [1, b], [1, c + " m"]],              # every later line inside the first one's block
+                                [[0, a], [1, b], [2, c + " m"]],
+                                [[0, a], [1, b], [2, c + " m"], [1, b + " top"]]])
+            # written tight ("hdr\n  row") or the triple-quoted way (leading newline, common margin, trailing blanks)
+            out.append(["m", shape, rng.choice(["tight", "tight", "quoted"])])
         elif r < 0.8:
             out.append(["b", gen_row(rng).split(), gen_program(rng, depth + 1, budget)])
         elif r < 0.9:
@@ -67,6 +72,13 @@ def gen_program(rng, depth=0, budget=None):
         if len(out) >= 5:
             break
     return out
+
+
+def iter_stmts(program):
+    for st in program:
+        yield st
+        if st[0] in ("b", "bi", "mb"):
+            yield from iter_stmts(st[2])
 
 
 def flat(x):
@@ -129,7 +141,10 @@ def make_run(program, counter):
                 elif k == "t":
                     yield tup(st[1])
                 elif k == "m":
-                    yield "\n".join("  " * d + row for d, row in st[1])
+                    body = "\n".join("  " * d + row for d, row in st[1])
+                    if len(st) > 2 and st[2] == "quoted":
+                        body = "\n" + "\n".join("        " + ln for ln in body.split("\n")) + "\n    "
+                    yield body
                 elif k == "c":
                     yield "#"
                 elif k == "b":
@@ -372,6 +387,18 @@ def make_case(seed, silent=False, ranked=False):
     return vname, gens, rng
 
 
+def add_legacy(seed, gens):
+    """rows that only the device has: rules (deletable) for them in the ACLs of two or more generators, nobody yields them.
+    Exclusivity is about generated lines; what is found on the device is simply within everybody's reach. -> device text"""
+    lrng = random.Random(seed ^ 0x1E6)
+    if lrng.random() < 0.5:
+        return ""
+    who = lrng.sample(range(len(gens)), min(len(gens), lrng.randint(2, 3))) if len(gens) >= 2 else [0]
+    for i in who:
+        gens[i]["acl"] = list(gens[i]["acl"]) + [A.AclRule(lrng.choice(["legacy *", "legacy ~", "legacy k1"]))]
+    return "legacy k1\nlegacy k2 x\n" if lrng.random() < 0.7 else "legacy k1\n"
+
+
 def check_case(seed, acc, silent=False, ranked=False):
     from annet.generators import GeneratorError
     from annet.annlib.patching import AclNotExclusiveError, AclError
@@ -382,6 +409,9 @@ def check_case(seed, acc, silent=False, ranked=False):
         acc.count("cases_with_a_silent_generator")
     if ranked:
         acc.count("cases_with_three_differently_written_rules")
+    dev_text = add_legacy(seed, gens)
+    if dev_text:
+        acc.count("cases_with_device_rows_claimed_by_several_generators" if sum(1 for g in gens if any(r.pat.startswith("legacy") for r in g["acl"])) >= 2 else "cases_with_device_rows")
     v = registry_connector.get()[vname]
     prefix = v.reverse
     dev = H.FakeDevice(v.hardware)
@@ -399,7 +429,7 @@ def check_case(seed, acc, silent=False, ranked=False):
         return None
     got = None
     try:
-        res = H.old_new(dev, real, "", no_acl_exclusive=False)
+        res = H.old_new(dev, real, dev_text, no_acl_exclusive=False)
         if res.err is not None:
             raise res.err
         got = ("ok", plain(res.new))
@@ -410,6 +440,7 @@ def check_case(seed, acc, silent=False, ranked=False):
     except Exception as e:
         got = ("exception", "%s: %s" % (type(e).__name__, str(e)[:200]))
     acc.count("runs")
+    acc.count("multi_line_yields_all_inside_the_first_line", sum(1 for g in gens for st in iter_stmts(g["program"]) if st[0] == "m" and all(d > 0 for d, _ in st[1][1:])))
     acc.count("comment_rows_yielded_inside_blocks", sum(g.get("comments", 0) for g in gens))
     acc.count("acl_comment_lines", sum(1 for t in texts for ln in t.split("\n") if ln.strip().startswith("#")))
     acc.count("rules_mentioning_interface_not_at_start", sum(1 for t in texts for ln in t.split("\n") if "-interface" in ln and not ln.strip().startswith("#")))
@@ -436,7 +467,7 @@ def check_case(seed, acc, silent=False, ranked=False):
         def strip(tree):
             return [[strip_annotation(r), strip(c)] for r, c in tree]
         try:
-            res2 = H.old_new(dev, real2, "", no_acl_exclusive=False, add_annotations=True)
+            res2 = H.old_new(dev, real2, dev_text, no_acl_exclusive=False, add_annotations=True)
             if res2.err is not None:
                 raise res2.err
             got2 = plain(res2.new)
